@@ -665,6 +665,7 @@ func (e *Engine) Explore(fn *ssa.Function) *Report {
 			r.Solver.Unknown += st.Unknown
 			r.Solver.Errors += st.Errors
 			r.Solver.Fallbacks += st.Fallbacks
+			r.Solver.Hangs += st.Hangs
 			r.Solver.Time += st.Time
 			if st.MaxQuery > r.Solver.MaxQuery {
 				r.Solver.MaxQuery = st.MaxQuery
